@@ -723,7 +723,7 @@ int main(int argc, char **argv)
   // (a) in chunks of forked cases; shared counters tell the parent how many histories completed /
   // were abandoned after a violation: once many violations or aborts are on record the remaining
   // chunks are skipped (never the case on a tree that satisfies the property)
-  long nHist = tsan ? vh::tier(10000, 200000) : vh::tier(100000, 1000000);
+  long nHist = tsan ? vh::tier(30000, 200000) : vh::tier(300000, 1000000);
   g_progress = (Progress *)mmap(0, sizeof(Progress), PROT_READ | PROT_WRITE, MAP_SHARED | MAP_ANONYMOUS, -1, 0);
   g_progress->completed = g_progress->failed = 0;
   if (vh::st().onlyCase >= 0) {
@@ -749,7 +749,7 @@ int main(int argc, char **argv)
   // (b)
   if (vh::st().onlyCase < 0) {
     const int Ts[] = {1, 2, 3, 4, 6, 8, 12, 16};
-    long budget   = vh::tier(300000, 3000000);  // operations per round, shared by the threads
+    long budget   = vh::tier(1000000, 3000000);  // operations per round, shared by the threads
     int rounds    = (int)vh::tier(2, 4);
     if (tsan)
       budget /= 5;
